@@ -36,6 +36,15 @@ type thread struct {
 	body     func()
 	steps    int
 	lastRead string // variable of the immediately preceding visible op if it was a read
+	frames   []frame
+}
+
+// frame: one active invocation of an instrumented function. work is set when
+// the invocation (or something it called) entered a function outside
+// InitOnly or wrote a package-level variable.
+type frame struct {
+	id   int
+	work bool
 }
 
 // PointInfo is what the explorer sees at a scheduling point.
@@ -69,6 +78,7 @@ type Exec struct {
 	Races     []string
 	Faults    []string // misuse detected by the sync shim (e.g. a pooled object shared by two threads)
 	Calls     []int    // per function id: number of executions (all threads)
+	Effective []int    // per function id: executions that did some work (see Enter)
 	Deadlock  bool
 	vars      map[string]*varState
 	Counts    map[string][2]int // per variable: reads, writes
@@ -311,6 +321,9 @@ func Access(name string, write bool, site string) {
 	}
 	t := e.cur
 	if write {
+		if n := len(t.frames); n > 0 {
+			t.frames[n-1].work = true
+		}
 		t.lastRead = ""
 		e.Version++
 	} else {
@@ -394,7 +407,12 @@ func CurID() int {
 }
 
 // Enter counts one execution of an instrumented function. It is not a
-// scheduling point.
+// scheduling point. Together with Leave it also keeps, per thread, the stack
+// of active invocations, so that Effective[id] counts the invocations of
+// function id that did some work: entered a function outside InitOnly
+// or wrote a package-level variable, directly or through a callee. An
+// invocation that only took a lock, looked and left (the losing side of a
+// double-checked initialisation) is not effective.
 func Enter(id int) {
 	e := active
 	if e == nil || e.cur == nil {
@@ -404,6 +422,42 @@ func Enter(id int) {
 		e.Calls = append(e.Calls, make([]int, id+64-len(e.Calls))...)
 	}
 	e.Calls[id]++
+	t := e.cur
+	if n := len(t.frames); n > 0 && !(id < len(InitOnly) && InitOnly[id]) {
+		t.frames[n-1].work = true
+	}
+	t.frames = append(t.frames, frame{id: id})
+}
+
+// InitOnly is set by the harness: InitOnly[id] means function id only runs in
+// a cold process (one-time initialisation code).
+var InitOnly []bool
+
+// Leave ends the invocation opened by the matching Enter (deferred).
+func Leave(id int) {
+	e := active
+	if e == nil || e.cur == nil {
+		return
+	}
+	t := e.cur
+	n := len(t.frames)
+	for n > 0 && t.frames[n-1].id != id {
+		n--
+	}
+	if n == 0 {
+		return // no matching Enter in this execution
+	}
+	f := t.frames[n-1]
+	t.frames = t.frames[:n-1]
+	if f.work {
+		for id >= len(e.Effective) {
+			e.Effective = append(e.Effective, make([]int, id+64-len(e.Effective))...)
+		}
+		e.Effective[id]++
+		if n-1 > 0 {
+			t.frames[n-2].work = true
+		}
+	}
 }
 
 // CoreState serialises the scheduler-visible state: per thread the number of
